@@ -32,6 +32,33 @@ theorem C03_large_enough_is_accepted (t : Ty) (h : t.WF) (i : Init) (hw : InitWT
   have hres : o.res = .ok () := hiff.2 ⟨hr, hlen⟩
   exact ⟨o, ho, hres, validate_ok_iff.2 ⟨hal, by simp only [Slice.len, hok.len]; exact hmin, hok.valid hres⟩, hc hres, hsize hres⟩
 
+/-- **C03, clause 3 for native struct layouts.** After a generated `…Init` of an unsized struct ran (whatever the outcome of the
+last field's emplacer), every sized field's bytes — at the position the field walker assigns, which is the C offset
+(`C04_positions_eq_c`) — are exactly the image that was given for that field; the bytes between fields are padding and are not
+specified. -/
+theorem C03_struct_fields_at_c_offsets (fs : List Ty) (last : Ty) (h : (Ty.ustruct fs last).WF) (vals : List Bytes) (li : Init)
+    (hw : InitWT (.ustruct fs last) (.ustruct vals li)) (s : Slice)
+    (hal : s.addr % (Ty.ustruct fs last).dict.align = 0) (hlen : (Ty.ustruct fs last).dict.minSize ≤ s.len) :
+    ∃ o, emplaceU (.ustruct fs last) (.ustruct vals li) s = .ok o ∧
+      ∀ (i : Nat) (d : Dict) (v : Bytes) (P : Nat), (dictL fs)[i]? = some d → vals[i]? = some v → (posList (dictL fs) 0)[i]? = some P →
+        (o.bytes.drop P).take d.ssize = v := by
+  obtain ⟨addr, bytes⟩ := s
+  simp only [Ty.WF] at h
+  simp only [InitWT] at hw
+  simp only [Ty.dict, ustructD, Slice.len] at hal hlen
+  have hl := lawL fs h.1
+  have hlast := Ty.law last h.2.2.1
+  obtain ⟨b1, ol, hb1l, hroom, _, _, holl, hel, hcomp⟩ := ustruct_shape fs last vals li hl (sizedL_allSized fs h.2.1) hlast hw.1
+    (emplaceU_ok li last h.2.2.1 hw.2) addr bytes hal hlen
+  refine ⟨_, hcomp, ?_⟩
+  intro i d v P hd hv hP
+  have hend := posList_end_le (dictL fs) 0 i P d (fun x hx => (hl x hx).align_pow2.pos) (headAligned_zero _) hd hP
+  have h4 := le_ceilMul (x := foldSize (dictL fs) 0) hlast.align_pow2.pos
+  show (((b1.take _ ++ ol.bytes) ++ bytes.drop _).drop P).take d.ssize = v
+  rw [List.append_assoc, drop_take_eq (a := b1.take _ ++ (ol.bytes ++ bytes.drop _)) (b := b1) (n := ceilMul (foldSize (dictL fs) 0) last.dict.align)
+    (by rw [List.take_append_of_le_length (by simp only [List.length_take, hb1l]; omega), List.take_take, Nat.min_self]) (by omega)]
+  exact hel i d v P hd hv hP
+
 /-- non-vacuity: `S1 { a: u32, b: FlatVec<u8,u16> }` with three bytes in `b` occupies 12 bytes (4 + 2 + 3, padded to 4) -/
 example : sizeSpec S1 (.ustruct [[1,0,0,0]] (.vecArr [[7],[8],[9]])) = 12 := by decide
 end FV.Props
